@@ -25,9 +25,18 @@ Section Obj.
      None = not assigned on this path (e.g. no Hessian) *)
   Variable derive : list (option V) -> string -> option V.
 
+  (* _clear_stats(), called first: some of the statistics left by a previous processing are reset
+     (set to Python None, or deleted) before being recomputed; [cleared_value a] is what such an
+     attribute holds when it is not recomputed *)
+  Variable cleared : list string.
+  Variable cleared_value : string -> option V.
+
   Definition calculate_stats (o : obj) : obj :=
     fun a => if str_mem a outs
-             then match derive (snapshot ins o) a with Some v => Some v | None => o a end
+             then match derive (snapshot ins o) a with
+                  | Some v => Some v
+                  | None => if str_mem a cleared then cleared_value a else o a
+                  end
              else o a.
 
   Variable Bytes : Type.
